@@ -301,3 +301,25 @@ Definition starts_safe (d : byte) (rest : list byte) : Prop :=
 (* the native image of a table: what Recfile.write hands to the C++ writer *)
 Definition native_table (t : table) : table :=
   {| tdt := map native_fld (tdt t); trows := map (to_native_row (tdt t)) (trows t) |}.
+
+(* ------------------------------------------------------------------ concrete tables used by Properties.v
+   kf_witness: [('s','S3'),('i','i4')], rows ("  a",1),("  b",2) -- with ',' a member of the known class
+   nv_table:   [('i','>i2',(2,)),('s','S3')] -- non-vacuity of the hypotheses *)
+Definition kf_witness : table :=
+  {| tdt := [ {| fname := [x73]; fkind := KStr 3; forder := NA; fshape := [] |};
+              {| fname := [x69]; fkind := KInt true 4; forder := LE; fshape := [] |} ];
+     trows := [ [[[x20; x20; x61]]; [[x01; x00; x00; x00]]]; [[[x20; x20; x62]]; [[x02; x00; x00; x00]]] ] |}.
+Definition nv_table : table :=
+  {| tdt := [ {| fname := [x69]; fkind := KInt true 2; forder := BE; fshape := [2] |};
+              {| fname := [x73]; fkind := KStr 3; forder := NA; fshape := [] |} ];
+     trows := [ [[[xff; xfe]; [x01; x00]]; [[x20; x61; x2c]]]; [[[x00; x07]; [x80; x00]]; [[x20; x20; x00]]] ] |}.
+(* w_tab:   [('i','i4'),('s','S3')], rows (1," ab"),(2," cd") -- with the tab delimiter a member through the same-row clause
+   w_delim: [('s','S3'),('i','i4')], rows (";a",1),(";b",2) -- with ';' a member through the next-row-starts-with-delimiter clause *)
+Definition w_tab : table :=
+  {| tdt := [ {| fname := [x69]; fkind := KInt true 4; forder := LE; fshape := [] |};
+              {| fname := [x73]; fkind := KStr 3; forder := NA; fshape := [] |} ];
+     trows := [ [[[x01; x00; x00; x00]]; [[x20; x61; x62]]]; [[[x02; x00; x00; x00]]; [[x20; x63; x64]]] ] |}.
+Definition w_delim : table :=
+  {| tdt := [ {| fname := [x73]; fkind := KStr 3; forder := NA; fshape := [] |};
+              {| fname := [x69]; fkind := KInt true 4; forder := LE; fshape := [] |} ];
+     trows := [ [[[x3b; x61; x00]]; [[x01; x00; x00; x00]]]; [[[x3b; x62; x00]]; [[x02; x00; x00; x00]]] ] |}.
